@@ -799,7 +799,7 @@ func (e *kvElection) StopWithContext(ctx context.Context, opts StopOptions) erro
 		)...,
 	)
 
-	if opts.DeleteKey && wasLeader {
+	if opts.DeleteKey && wasLeader && !e.recordHeldByOther() {
 		if err := e.kv.Delete(e.key); err != nil {
 			log := e.getLogger()
 			log.Warn("key_deletion_failed",
@@ -860,6 +860,23 @@ func (e *kvElection) StopWithContext(ctx context.Context, opts StopOptions) erro
 	}
 
 	return nil
+}
+
+// recordHeldByOther reports whether a fresh read shows a leadership record that is
+// not this instance's current one. The wait in StopWithContext can outlast the TTL
+// (a slow callback, a hung store call): by then the record may belong to a
+// successor, and Delete is not revision-checked. When the read fails the answer is
+// false and the caller deletes as before.
+func (e *kvElection) recordHeldByOther() bool {
+	entry, err := e.kv.Get(e.key)
+	if err != nil || entry == nil {
+		return false
+	}
+	var current leadershipPayload
+	if err := json.Unmarshal(entry.Value(), &current); err != nil {
+		return false
+	}
+	return current.ID != e.cfg.InstanceID || current.Token != e.Token()
 }
 
 func (e *kvElection) Status() ElectionStatus {
